@@ -9,7 +9,7 @@ PROP_NAMES = ["alpha", "beta", "gamma", "delta", "count", "name", "value", "id",
               "camelCase", "with-dash", "type", "Upper", "ref", "two words", "x9", "kind_of",
               "π", "snake_case_name", "fn", "a"]
 ENUM_VALUES = ["red", "green", "blue", "Dark Red", "light-blue", "UPPER", "camelCase", "snake_case",
-               "a", "b", "c", "x-ray", "1st", "match", "type", "Ω", "foo.bar", "N/A", "{id}", "a}b"]
+               "a", "b", "c", "x-ray", "1st", "match", "type", "Ω", "foo.bar", "N/A", "{id}", "a}b", "pad", "pad ", " pad"]
 DEF_NAMES = ["Thing", "Widget", "Gadget", "Node", "Tree", "Item", "Config", "Shape", "Event", "Record",
              "pet-store", "http_request", "lowercase", "Mixed_Case-name", "V2Thing", "Kind", "point_x_y", "a_b_c"]
 TAG_NAMES = ["type", "kind", "tag", "t", "variant"]
